@@ -66,6 +66,10 @@ CLAIMED = {
          "Generated histories over every public setter, header operation, clone, builder creation, prepare and send; after every step the settings snapshot and header map of every live object equal the model, and sends behave per the model on the wire (redirect bound, max_headers acceptance, proxy dialled, header fields); a quarter of the cases deal the objects to 1..4 threads that continue concurrently.",
          "Settings without wire effect are observed through the verif-hooks snapshot; memory-ordering races cannot occur in safe Rust and are not the subject.",
          "DESIGN.md §4 C16"),
+ "C12": ("property-based testing (proptest) with fault injection on the CONNECT reply; invariants over the ordered write/serve log of a scripted proxy that continues as a sans-IO rustls server",
+         "Generated https-through-proxy exchanges with marker strings in every secret-bearing place; the proxy's reply varies over status 100..=599, headers, bodies up to endless, and heads cut at every offset / garbage / I/O errors under any segmentation. Checked: only a well-formed CONNECT (right authority, right Proxy-Authorization) is written before a 2xx head has been served, nothing after a refusal, ConnectError status and <= 10 KiB body, TLS ClientHello next, no marker in clear, no proxy credentials inside the tunnel, SNI = origin, and certificate verification against the origin's name (origin vs proxy fixture certificate).",
+         "The CONNECT Host field, I/O errors while the refusal body is read and percent-decoding of proxy credentials are not asserted; IPv6-literal origins are exercised up to the proxy's reply only.",
+         "DESIGN.md §4 C12"),
 }
 hooks_commits = subprocess.run(["git","-C","/repo","log","--format=%h %s"],capture_output=True,text=True).stdout.splitlines()
 hook_commits = [l.split()[0] for l in hooks_commits if l.split(' ',1)[1].startswith('verif-hooks')]
